@@ -11,6 +11,10 @@ Model of `extractor/filesystem/language/ruby/gemfilelock`: `parseLockfileSection
 The regular expression is modelled by a hand-written matcher with the same leftmost / lazy / greedy choices:
 shortest name for which the rest matches; the parenthesised group is preferred; longest dash-free version.
 The commit (`revision`) is not part of the compared output and is not stored.
+Go indexing: `m[1]`, `m[2]` of the submatch slice behind the `len(m) < 3` guard are modelled with `goIndex`
+(`specPkgGo`); `m[0]` of `indentRegexp` is taken on a non-nil match, i.e. it exists by the regexp package's
+contract, and is not an index the extractor has to guard. `specPkg` / `pkgsOf` are the index-free
+reformulations used by the proofs (`pkgsOfGo_eq`).
 -/
 import Scalibr.Model.Parsers.Common
 namespace Scalibr.Parsers.Gemfile
@@ -84,6 +88,25 @@ def specPkg (s : List Char) : Option (List Char × List Char) :=
   | some (n, v) => if n.isEmpty || v.isEmpty then none else some (n, v)
   | none => none
 
+/-- `nameVersionRegexp.FindStringSubmatch(s)`: nil, or the whole match followed by the four groups (platform and
+`!` are not used by the extractor and left empty here) -/
+def submatch (s : List Char) : List (List Char) :=
+  match specNV s [] with
+  | some (n, v) => [s, n, v, [], []]
+  | none => []
+
+/-- the loop body of `Extract` as written: `len(m) < 3 || m[1] == "" || m[2] == ""`, then `m[1], m[2]`.
+Outer `none` = Go would panic with an index out of range. -/
+def specPkgGo (s : List Char) : Option (Option (List Char × List Char)) :=
+  let m := submatch s
+  if m.length < 3 then some none else
+  match goIndex m 1, goIndex m 2 with
+  | some n, some v => if n.isEmpty || v.isEmpty then some none else some (some (n, v))
+  | _, _ => none
+
+def pkgsOfGo (secs : List Sec) : Option (List (List Char × List Char)) :=
+  (secs.mapM fun sec => if sourceNames.contains sec.name then (sec.specs.mapM specPkgGo).map (·.filterMap id) else some []).map List.flatten
+
 def pkgsOf (secs : List Sec) : List (List Char × List Char) :=
   secs.flatMap fun sec => if sourceNames.contains sec.name then sec.specs.filterMap specPkg else []
 
@@ -91,6 +114,8 @@ def parse (bytes : List Char) : Outcome (List (List Char × List Char)) :=
   let (ls, _) := scan bytes
   match gemSections ls none [] with
   | none => .err
-  | some secs => .ok (pkgsOf secs)
+  | some secs => match pkgsOfGo secs with
+    | none => .panic
+    | some ps => .ok ps
 
 end Scalibr.Parsers.Gemfile
